@@ -79,13 +79,14 @@ def gen_blocks(rng):
 class C15(Prop):
     id = "C15"
     level = "exploration"
-    RUNS = {"quick": 5000, "thorough": 40000}
+    RUNS = {"quick": 4000, "thorough": 40000}
     BUDGET = {"quick": 75, "thorough": 900}
     ORACLES = ("C15", "O-DELIVERY", "O-IMMUT")
     RULE = ("seeded histories over 1-3 partitions (d in 1..5): get_block on leaf points, combinations, aliased points "
             "and gradients of block-smooth functions in any order and repeatedly, some points never decomposed; then a "
             "TAGGED solve (once or twice) on the cvxpy or stand-in MOSEK transport; invariants after every get_block: "
-            "blocks sum back to the point, asking again returns the identical object, d = 1 is the identity; at every "
+            "blocks sum back to the point, asking again returns the identical object, d = 1 is the identity; user "
+            "constraints attached to a partition before or between solves; at every "
             "solve the relations delivered at the seam for each partition are exactly {<x^(k), y^(l)> = 0 : x, y "
             "decomposed, k != l} (reference model computed by the harness from the blocks it obtained) and nothing "
             "else, and they hold on a concrete coordinate partition of R^n with the blocks bound to true projections; "
@@ -101,7 +102,14 @@ class C15(Prop):
         ops.append({"op": "sq", "out": "m_e", "a": points[0]})
         ops.append({"op": "cons", "out": "m_c", "lhs": "m_e", "rel": "<=", "rhs": 1.0, "target": "P", "how": "initial"})
         ops.append({"op": "metric", "P": "P", "e": "m_e"})
-        for k in range(rng.choice([1, 1, 2])):
+        for k in range(rng.choice([1, 1, 2, 3])):
+            if rng.random() < (0.35 if k == 0 else 0.5):
+                # a constraint the user attaches to a partition directly (BlockPartition.add_constraint), before the
+                # first solve or between two solves: it travels with the partition's own relations
+                B, d = rng.choice(parts)
+                ops.append({"op": "sq", "out": "u_e%d" % k, "a": rng.choice(points)})
+                ops.append({"op": "cons", "out": "u_c%d" % k, "lhs": "u_e%d" % k, "rel": "<=",
+                            "rhs": float("%.3g" % rng.uniform(2, 9)), "target": B})
             s = draw_solve(rng, "P", "tau%d" % k, peer_mode="tagged", allow_heuristic=False)
             ops.append(s)
             ops.append({"op": "check", "what": "partition_relations"})
